@@ -167,7 +167,7 @@ impl Transport {
 }
 
 /// valid TCP option encodings used to fill option areas
-fn tcp_option(t: &mut Tape, out: &mut Vec<u8>) {
+pub fn tcp_option(t: &mut Tape, out: &mut Vec<u8>) {
     match t.below(8) {
         0 => out.push(1),
         1 => out.extend_from_slice(&[2, 4, t.u8(), t.u8()]),
@@ -250,8 +250,24 @@ fn gen_transport(t: &mut Tape, tr: Transport, v6: bool, intent: &mut Intent) -> 
             let mut opts = vec![];
             if opt_len > 0 {
                 if t.chance(3, 4) {
+                    let mut starts = vec![];
                     while opts.len() < opt_len {
+                        starts.push(opts.len());
                         tcp_option(t, &mut opts);
+                    }
+                    if t.chance(1, 4) {
+                        // one option lies about its length
+                        let i = starts[t.below(starts.len())];
+                        if i + 1 < opts.len() && opts[i] >= 2 {
+                            opts[i + 1] = match t.below(5) {
+                                0 => 0,
+                                1 => 1,
+                                2 => 2,
+                                3 => opts[i + 1].wrapping_add(1),
+                                _ => opts[i + 1].wrapping_sub(1),
+                            };
+                            intent.perturb.push("tcp:opt-len-lies".into());
+                        }
                     }
                     opts.truncate(opt_len);
                 } else {
@@ -890,4 +906,56 @@ pub fn golden_packets() -> Vec<(Start, Vec<u8>)> {
         }
     }
     out
+}
+
+
+/// A TCP option area or an NDP option area made of valid options, then perturbed: one option's length
+/// byte changed to a lying value and/or the area cut short. Returns (bytes, is_tcp).
+pub fn gen_tlv_area(t: &mut Tape) -> (Vec<u8>, bool) {
+    let is_tcp = t.bool();
+    let mut out: Vec<u8> = vec![];
+    let mut starts: Vec<usize> = vec![];
+    let n = 1 + t.below(6);
+    for _ in 0..n {
+        starts.push(out.len());
+        if is_tcp {
+            tcp_option(t, &mut out);
+        } else {
+            let kind = t.pick(&[1u8, 2, 3, 4, 5, 14, 200]);
+            let units = match kind {
+                1 | 2 | 5 => 1,
+                3 => 4,
+                _ => 1 + t.below(3),
+            };
+            out.push(kind);
+            out.push(units as u8);
+            out.extend(t.bytes(units * 8 - 2));
+        }
+    }
+    if t.chance(2, 3) {
+        // lie in the length byte of one option (TCP: byte 1 of kinds >= 2; NDP: byte 1)
+        let i = starts[t.below(starts.len())];
+        if i + 1 < out.len() && (!is_tcp || out[i] >= 2) {
+            let cur = out[i + 1];
+            out[i + 1] = match t.below(8) {
+                0 => 0,
+                1 => 1,
+                2 => 2,
+                3 => 3,
+                4 => cur.wrapping_sub(1),
+                5 => cur.wrapping_add(1),
+                6 => cur.wrapping_add(8),
+                _ => 255,
+            };
+            if t.chance(2, 3) {
+                // cut the area shortly behind the lying option header
+                let keep = (i + 2 + t.below(9)).min(out.len());
+                out.truncate(keep);
+            }
+        }
+    } else if t.chance(1, 2) && !out.is_empty() {
+        let keep = t.below(out.len() + 1);
+        out.truncate(keep);
+    }
+    (out, is_tcp)
 }
